@@ -385,6 +385,43 @@ def gen_long(rng, sync, big):
     return case
 
 
+EX_DELIMS = [b'\n', b'-', b'\r\n', b'--', b'-a']
+EX_SIZES = [None, 0, 1, 2, 4]
+
+
+def ex_ops(cs, sync):
+    ops = [('read', n) for n in EX_SIZES] + [('peek', n) for n in EX_SIZES] + [('pipe',), ('exhaust',)]
+    for d in EX_DELIMS:
+        if len(d) <= cs:
+            ops += [('read_until', d, n, c) for n in EX_SIZES for c in (False, True)]
+            ops += [('pipe_until', d, c) for c in (False, True)]
+    if sync:
+        ops += [('readline', n) for n in EX_SIZES] + [('readlines', None), ('readlines', 2)]
+    return ops
+
+
+def gen_exhaustive(maxlen_data, sync):
+    """every (data up to a length over {a, CR, LF, -}) x chunk size 1..3 x one operation x a
+    state-shifting prefix operation x source chunking (1-byte / 2-byte / whole)"""
+    prefixes = [None, ('peek', 1), ('read', 1), ('read_until', b'\n', None, False)]
+    for n in range(maxlen_data + 1):
+        for tup in itertools.product(ALPHA, repeat=n):
+            data = bytes(tup)
+            for cs in (1, 2, 3):
+                for o in ex_ops(cs, sync):
+                    for pre in prefixes:
+                        hist = ([('op', pre)] if pre else []) + [('op', o)]
+                        for style in (0, 1, 2):
+                            case = {'data': data, 'cs': cs, 'hist': hist}
+                            if sync:
+                                case['maxlen'] = n
+                                case['sched'] = [[0] * (n + 2), [1] * (n + 2), []][style]
+                            else:
+                                k = (1, 2, max(n, 1))[style]
+                                case['chunks'] = [data[i:i + k] for i in range(0, n, k)]
+                            yield case
+
+
 # ---------------------------------------------------------------- checking
 
 
@@ -408,41 +445,57 @@ def first_diff(a, b):
     return None
 
 
-def judge(ctx, sync, case, impl, spec_out, model_out, src=None):
-    """returns 'cursor' (binding violation found), 'model' (correspondence only) or None"""
+def w_result(r):
+    t = r[0]
+    if t == 'bytes':
+        return [0, r[1]]
+    if t == 'DelimiterError':
+        return [1, r[1]]
+    if t == 'lines':
+        return [2, list(r[1])]
+    return [3]
+
+
+def oracle_wire(case, sync, impl):
+    """the implementation's observation, as presented to the extracted oracle (Oracle.v)"""
+    maxlen = case['maxlen'] if sync else len(case['data'])
+    if sync:
+        obs = [[w_result(r), 0, 0] for r in impl]
+    else:
+        obs = [[w_result(r), t if t >= 0 else 99999, e] for (r, t, e) in impl]
+    return [3, sync, case['cs'], maxlen, case['data'], w_hist(case['hist']), obs]
+
+
+def abnormal(impl_res):
+    for r in impl_res:
+        if r[0] in ('crash', 'hang'):
+            return r[0]
+    return None
+
+
+def judge(ctx, sync, case, impl, spec_out, model_out, verdict_step, src=None):
+    """returns 'cursor' (binding violation found), 'model' (correspondence only) or None.
+    [verdict_step] is the extracted oracle's answer on the implementation's observation:
+    the first step that is not what the flat cursor gives ([] = all steps fine)."""
     which = 'sync' if sync else 'async'
     spec_res = [r_result(o[0]) for o in spec_out]
-    if sync:
-        impl_res = impl
-        model_res = [r_result(o) for o in model_out]
-    else:
-        impl_res = [o[0] for o in impl]
-        model_res = [r_result(o[0]) for o in model_out]
+    impl_res = impl if sync else [o[0] for o in impl]
     detail = {'reader': which, 'case': jsonable(case)}
     verdict = None
-    i = first_diff(impl_res, spec_res)
-    if i is not None:
+    ab = abnormal(impl_res)
+    if ab or verdict_step:
         verdict = 'cursor'
-        last = impl_res[min(i, len(impl_res) - 1)][0] if impl_res else ''
-        ctx.violation('%s-reader-%s' % (which, {'crash': 'raises-other-exception', 'hang': 'hangs'}.get(
-            last, 'differs-from-flat-cursor')),
-                      dict(detail, step=i, impl=jsonable(impl_res[:i + 1]), cursor=jsonable(spec_res[:i + 1]),
-                           what='operation %d returned something else than the same operation on a flat cursor '
-                                'over the whole byte string' % i),
-                      key='%s-cursor' % which)
-    if not sync and verdict is None:
-        for j, (o, s) in enumerate(zip(impl, spec_out)):
-            if o[1] != s[1]:
-                verdict = 'cursor'
-                ctx.violation('async-tell-differs-from-cursor-position',
-                              dict(detail, step=j, impl_tell=o[1], cursor_pos=s[1], impl=jsonable(impl_res[:j + 1])),
-                              key='async-tell')
-                break
-            if o[2] and not s[2]:
-                verdict = 'cursor'
-                ctx.violation('async-eof-before-end',
-                              dict(detail, step=j, impl=jsonable(impl_res[:j + 1])), key='async-eof')
-                break
+        i = len(impl_res) - 1 if ab else verdict_step[0]
+        kind = {'crash': 'raises-other-exception', 'hang': 'hangs', None: 'differs-from-flat-cursor'}[ab]
+        d = dict(detail, step=i, impl=jsonable(impl[:i + 1]), cursor=jsonable(spec_res[:i + 1]),
+                 what='operation %d: the real reader did not do what the same operation does on a flat cursor '
+                      'over the whole byte string (result%s)' % (i, '' if sync else ', tell() or eof'))
+        if not sync and not ab and i < len(impl) and i < len(spec_out):
+            d['impl_tell_eof'] = [impl[i][1], impl[i][2]]
+            d['cursor_pos_atend'] = [spec_out[i][1], bool(spec_out[i][2])]
+            if impl_res[i] == spec_res[i]:
+                kind = 'tell-or-eof-differs-from-cursor'
+        ctx.violation('%s-reader-%s' % (which, kind), d, key='%s-cursor-%s' % (which, kind))
     if sync and src is not None and src.over is not None:
         verdict = 'cursor'
         ctx.violation('sync-reader-requests-beyond-declared-length',
@@ -451,7 +504,7 @@ def judge(ctx, sync, case, impl, spec_out, model_out, src=None):
         ctx.advisory.append({'sync source asked for a non-positive size': src.odd, 'case': jsonable(case)})
     if verdict is None:
         if sync:
-            i = first_diff(impl_res, model_res)
+            i = first_diff(impl_res, [r_result(o) for o in model_out])
         else:
             i = first_diff([(o[0], o[1], o[2]) for o in impl],
                            [(r_result(o[0]), o[1], bool(o[2])) for o in model_out])
@@ -471,16 +524,16 @@ def nontrivial(case, impl_res):
 
 
 def run_cases(ctx, mods, model, cases, sync, tag):
+    impls = [guarded(run_sync if sync else run_async, mods, c) for c in cases]
     spec_outs = model.run_many([spec_wire(c, sync) for c in cases])
     model_outs = model.run_many([model_wire(c, sync) for c in cases])
-    for c, s, m in zip(cases, spec_outs, model_outs):
-        if sync:
-            impl, src = guarded(run_sync, mods, c)
-            res = impl
-        else:
-            impl, src = guarded(run_async, mods, c), None
-            res = [o[0] for o in impl]
-        v = judge(ctx, sync, c, impl, s, m, src)
+    obs = [(im[0] if sync else im) for im in impls]
+    ok = [abnormal(o if sync else [x[0] for x in o]) is None for o in obs]
+    verdicts = iter(model.run_many([oracle_wire(c, sync, o) for c, o, k in zip(cases, obs, ok) if k]))
+    for c, s, m, im, o, k in zip(cases, spec_outs, model_outs, impls, obs, ok):
+        vstep = next(verdicts) if k else None
+        v = judge(ctx, sync, c, o, s, m, vstep, im[1] if sync else None)
+        res = o if sync else [x[0] for x in o]
         key = (tag, sync, repr(sorted(c.items())))
         ctx.note_case(key, nontrivial(c, res))
         ctx.count('%s-%s' % ('sync' if sync else 'async', tag))
@@ -509,7 +562,18 @@ def main(ctx):
     n_small = 20000 if quick else 250000
     n_long = 2500 if quick else 25000
     n_big = 150 if quick else 1500
+    ex_len = 2 if quick else 4
+    ctx.cov['exhaustive_block'] = ('all data of length <= %d over {a,CR,LF,-} x chunk size 1..3 x every single '
+                                   'operation of a fixed list (sizes None/0/1/2/4, 5 delimiters, +-consume) x 4 prefix '
+                                   'operations x 3 source chunkings, both readers' % ex_len)
     for sync in (True, False):
+        batch = []
+        for case in gen_exhaustive(ex_len, sync):
+            batch.append(case)
+            if len(batch) >= 20000:
+                run_cases(ctx, mods, model, batch, sync, 'exhaustive')
+                batch = []
+        run_cases(ctx, mods, model, batch, sync, 'exhaustive')
         run_cases(ctx, mods, model, [gen_small(ctx.rng, sync) for _ in range(n_small)], sync, 'small')
         run_cases(ctx, mods, model, [gen_long(ctx.rng, sync, False) for _ in range(n_long)], sync, 'long')
         run_cases(ctx, mods, model, [gen_long(ctx.rng, sync, True) for _ in range(n_big)], sync, 'big')
